@@ -170,6 +170,11 @@ package parser
 
 //@ func (*Parser).finishLocalNameList
 //@   sweep C01
+//@   props C04
+//@   at call getLocalAttribute#0 before assert[C04,name-location-captured-before-more-tokens-are-read] hits("GetNowTokenLoc#0") == hits("NextIdentifier#0")
+//@   at call append#0 before assert[C04,one-location-per-name] hits("GetNowTokenLoc#0") == hits("NextIdentifier#0")
+//@   ensures[C04,lists-aligned] len(result0) == len(result1) && len(result1) == len(result2)
+//@   loop 0 invariant [C04] hits("GetNowTokenLoc#0") == hits("NextIdentifier#0") && len(names) == len(locs) && len(locs) == len(kinds)
 //@ end
 
 //@ func (*Parser).parseLocalAssignOrFuncDefStat
